@@ -42,14 +42,15 @@ Theorem C01_other_jobs :
 Proof. exact other_ops_incl. Qed.
 Print Assumptions C01_other_jobs.
 
-(* What is published: an accepted `git push --all --atomic [--prune]` makes the remote heads equal to the
-   local ones (so the invariant of the clone becomes the invariant of the remote); a refused one is None. *)
+(* What is published: an accepted atomic push of all heads (with the explicit deletions of the branches the
+   clone removed) makes the remote heads equal to the local ones (so the invariant of the clone becomes the
+   invariant of the remote); a refused one is None. *)
 Theorem C01_publish :
-  forall s remote local prune remote',
+  forall s remote local deleted remote',
   wf_store s -> keys_nodup local ->
-  push_all_atomic s remote local prune = Some remote' ->
+  push_all_atomic s remote local deleted = Some remote' ->
   (forall n x, lookup local n = Some x -> lookup remote' n = Some x) /\
-  (forall n, lookup local n = None -> lookup remote' n = if prune then None else lookup remote n) /\
+  (forall n, lookup local n = None -> lookup remote' n = if mem n deleted then None else lookup remote n) /\
   (forall n old x, lookup remote n = Some old -> lookup local n = Some x -> Anc s old x).
 Proof. exact push_all_atomic_spec. Qed.
 Print Assumptions C01_publish.
